@@ -82,11 +82,15 @@ Tuples1(s, n) ==
       [] s = "virtual_sitesn" -> {t \in {<<3, 1, 2>>} : n >= 3}
       [] OTHER -> {t \in {<<1>>, <<2>>} : t[1] <= n}
 X(s, t, k, g) == [sec |-> s, atoms |-> t, par |-> Par(s, k), gk |-> g.k, gtag |-> g.tag, comment |-> IF k = 2 THEN "second form" ELSE ""]
-Cand(n) == UNION {{X(s, t, k, g) : t \in Tuples(s, n), k \in {1, 2}, g \in Guards} : s \in AllSecs}
+Cand(n) == UNION {{X(s, t, 1, g) : t \in Tuples(s, n), g \in Guards} : s \in AllSecs}
+           \cup UNION {{X(s, t, 2, g) : t \in Tuples(s, n), g \in {NoGuard, [k |-> "ifdef", tag |-> "F"]}} : s \in AllSecs}
 Cand1(n) == UNION {{X(s, t, 1, g) : t \in Tuples1(s, n), g \in Guards} \cup {X(s, t, 2, NoGuard) : t \in Tuples1(s, n)} : s \in AllSecs}
+Cand0(n) == UNION {{X(s, t, 1, g) : t \in Tuples1(s, n), g \in {NoGuard, [k |-> "ifdef", tag |-> "F"]}} : s \in AllSecs}
 GF == [k |-> "ifdef", tag |-> "F"]
 GN == [k |-> "ifndef", tag |-> "F"]
 Fam1(n) == {<<c>> : c \in Cand(n)} \cup {<<>>}
+Fam0(n) == {<<c>> : c \in Cand0(n)} \cup {<<>>}
+FamAttr(n) == {<<>>} \cup {<<X("bonds", t, 1, NoGuard)>> : t \in {u \in {<<2, 1>>} : n >= 2}}
 Fam2(n) == {p \in (Cand1(n) \X Cand1(n)) : p[1].sec = p[2].sec}      \* two in one section (also twice the same)
 Fam3(n) == UNION {{<<X("bonds", t, 1, g), d>>, <<d, X("bonds", t, 1, g)>>} :
                      t \in {u \in Tuples1("bonds", n) : u = <<2, 1>>}, g \in {GF, GN}, d \in {e \in Cand1(n) : e.sec # "bonds" /\ e.gtag # "G"}}
@@ -115,24 +119,24 @@ Mk(ln, g, v, xs, backed) == LET layout == ln[1] names == ln[2] k == NRes(layout)
      edges |-> EdgesOfInter(inter) \cup {{LastAtom(layout, Lo(e)), FirstAtom(layout, Hi(e))} : e \in g.ln},
      rnodes |-> {[id |-> r + Off(v), name |-> names[r]] : r \in 1..k},
      redges |-> {{r + Off(v) : r \in e} : e \in g.re}]
-VarOf(xs, n) == 1 + ((Len(xs) + n) % 3)
-Family(F(_), GR(_), allv) ==
+VOf(ln, g) == 1 + ((Len(ln[1]) + Cardinality(g.re)) % 3)
+\* molecules over the layouts LN, interaction lists F(n), graphs GR(k); allv: every attribute variant, else one derived from the shape
+FamilyOn(LN, F(_), GR(_), allv) ==
     UNION {UNION {UNION {{Mk(ln, g, v, xs, TRUE) : xs \in {ys \in F(Len(ln[1])) : \A i \in DOMAIN ys : Linkable(ln[1], g, ys[i])}} :
-                           v \in (IF allv THEN {1, 2, 3} ELSE {1 + ((Len(ln[1]) + Cardinality(g.re)) % 3)})} :
-                   g \in GR(NRes(ln[1]))} : ln \in LayoutNames}
-BigLayouts == {ln \in LayoutNames : Len(ln[1]) >= 3 \/ NRes(ln[1]) = 2}
-FamilyOn(LN, F(_), GR(_)) ==
-    UNION {UNION {{Mk(ln, g, 1 + ((Len(ln[1]) + Cardinality(g.re)) % 3), xs, TRUE) :
-                      xs \in {ys \in F(Len(ln[1])) : \A i \in DOMAIN ys : Linkable(ln[1], g, ys[i])}} : g \in GR(NRes(ln[1]))} : ln \in LN}
-\* quick: singles on every layout, graph and attribute variant; pairs / triples on the bigger layouts with fully linked graphs
-MolsQuick == Family(Fam1, GraphsFor, TRUE) \cup FamilyOn(BigLayouts, Fam2, GraphsSmall) \cup FamilyOn(BigLayouts, Fam3, GraphsSmall)
-             \cup FamilyOn(BigLayouts, Fam4, GraphsSmall)
-MolsFull == Family(Fam1, GraphsFor, TRUE) \cup Family(Fam2, GraphsFor, FALSE) \cup Family(Fam3, GraphsFor, FALSE) \cup Family(Fam4, GraphsFor, FALSE)
+                           v \in (IF allv THEN {1, 2, 3} ELSE {VOf(ln, g)})} : g \in GR(NRes(ln[1]))} : ln \in LN}
+CoreLayouts == {ln \in LayoutNames : ln \in {<<(<<1, 2, 2, 3>>), (<<"A", "B", "A">>)>>, <<(<<1, 1, 2, 2>>), (<<"A", "B">>)>>, <<(<<1, 2, 2>>), (<<"B", "A">>)>>}}
+GraphsOne(k) == CASE k = 1 -> {[re |-> {}, ln |-> {}]} [] k = 2 -> {[re |-> {E12}, ln |-> {E12}]} [] OTHER -> {[re |-> {E12, E23}, ln |-> {E12, E23}]}
+\* quick: every single interaction of the catalogue on every layout; attribute variants x all graphs (incl. missing links);
+\* the short catalogue on all graphs; pairs / triples of one section and guarded bond + other section on the core layouts
+MolsQuick(z) == FamilyOn(LayoutNames, Fam1, GraphsSmall, FALSE) \cup FamilyOn(LayoutNames, FamAttr, GraphsFor, TRUE)
+                \cup FamilyOn(LayoutNames, Fam0, GraphsFor, FALSE) \cup FamilyOn(CoreLayouts, Fam2, GraphsOne, FALSE)
+                \cup FamilyOn(CoreLayouts, Fam3, GraphsOne, FALSE) \cup FamilyOn(CoreLayouts, Fam4, GraphsOne, FALSE)
+MolsFull(z) == FamilyOn(LayoutNames, Fam1, GraphsFor, TRUE) \cup FamilyOn(LayoutNames, Fam2, GraphsFor, FALSE)
+               \cup FamilyOn(LayoutNames, Fam3, GraphsFor, FALSE) \cup FamilyOn(LayoutNames, Fam4, GraphsFor, FALSE)
 \* tiny instance for the sensitivity runs (every deviation has a witness in it)
-MolsDev == FamilyOn({ln \in LayoutNames : Len(ln[1]) = 4 /\ NRes(ln[1]) = 3}, Fam4, GraphsSmall)
-           \cup FamilyOn({ln \in LayoutNames : Len(ln[1]) = 4 /\ NRes(ln[1]) = 3}, Fam3, GraphsSmall)
+MolsDev(z) == FamilyOn(CoreLayouts, Fam4, GraphsOne, FALSE) \cup FamilyOn(CoreLayouts, Fam3, GraphsOne, FALSE)
 (* finding instances: the same molecules with (a) an atom that has a mass but no charge, (b) a linked residue pair whose only   *)
 (* atom-level edge is not a bond or constraint (made by an angle, a virtual site or an [ edges ] line of the link)              *)
-MolsMassOnly == UNION {UNION {{Mk(ln, g, 4, xs, TRUE) : xs \in {<<>>}} : g \in GraphsSmall(NRes(ln[1]))} : ln \in LayoutNames}
-MolsUnbacked == UNION {UNION {{Mk(ln, g, 1, xs, FALSE) : xs \in {<<>>}} : g \in {h \in GraphsFor(NRes(ln[1])) : h.ln # {}}} : ln \in LayoutNames}
+MolsMassOnly(z) == UNION {UNION {{Mk(ln, g, 4, xs, TRUE) : xs \in {<<>>}} : g \in GraphsSmall(NRes(ln[1]))} : ln \in LayoutNames}
+MolsUnbacked(z) == UNION {UNION {{Mk(ln, g, 1, xs, FALSE) : xs \in {<<>>}} : g \in {h \in GraphsFor(NRes(ln[1])) : h.ln # {}}} : ln \in LayoutNames}
 =============================================================================
